@@ -6,6 +6,7 @@ mod archive;
 mod cli;
 mod confid;
 mod enc;
+mod fuzz;
 mod history;
 mod keys;
 mod repair;
@@ -42,6 +43,7 @@ fn main() {
             let mut all = enc::witnesses();
             all.extend(writer::witnesses());
             all.extend(repair::witnesses());
+            all.extend(fuzz::witnesses());
             for (name, prop, f) in all {
                 if let Some(o) = &only {
                     if o != name && o != prop {
@@ -60,6 +62,12 @@ fn main() {
         "c05" => repair::c05_cases(&mut rng, &tier, &mut out),
         "c07" => confid::c07_cases(&mut rng, &tier, &mut out),
         "c07-child" => confid::child(),
+        "c08" => fuzz::c08_cases(&mut rng, &tier, &mut out),
+        "c08-child" => {
+            let num = |n: &str| arg(&args, n).and_then(|s| s.parse::<usize>().ok()).unwrap_or(0);
+            fuzz::child_main(seed, &tier, num("--shard"), num("--of").max(1), num("--from"), &arg(&args, "--bases").unwrap_or_default());
+        }
+        "c08-wit" => fuzz::wit_child(args.get(2).map(|s| s.as_str()).unwrap_or("")),
         "c10" => history::c10_cases(&mut rng, &tier, &mut out),
         "c12" => history::c12_cases(&mut rng, &tier, &mut out),
         "c13" => history::c13_cases(&mut rng, &tier, &mut out),
